@@ -201,7 +201,12 @@ impl LazyScopedVariables {
     pub(super) fn evaluate_all(&self, exec: &mut EvaluationContext) -> Result<(), ExecutionError> {
         #[cfg(feature = "verif")]
         crate::verif::emit(|| crate::verif::json!({"e": "sforceall", "n": self.variables.len()}));
-        for (name, cell) in &self.variables {
+        // force the names in a stable order, so that the error reported when several of them
+        // fail does not depend on the iteration order of the map
+        let mut names = self.variables.keys().collect::<Vec<_>>();
+        names.sort();
+        for name in names {
+            let cell = &self.variables[name];
             let values = cell.replace(ScopedValues::Forcing);
             let map = self.force(name, values, exec)?;
             cell.replace(ScopedValues::Forced(map));
